@@ -2411,3 +2411,8 @@ mod tests {
         );
     }
 }
+
+// verification hook: bounded-model-checking harnesses (compiled only by Kani, `--cfg kani`)
+#[cfg(kani)]
+#[path = "/verif/harness/h_de_error.rs"]
+mod verif;
